@@ -262,7 +262,8 @@ def gen_variable_shell(rng, i, ents, enums, *, types=TYPES, units=None, input_on
     )
     unit = weighted(rng, units or _UNIT_W)
     var = {
-        "name": f"v{i}",
+        # (a helper variable may be named like a private one)
+        "name": f"_v{i}" if chance(rng, 0.1) else f"v{i}",
         "entity": ent["key"],
         "type": typ,
         "unit": unit,
